@@ -22,6 +22,7 @@ EXPLANATION = (
     "the same concreteness predicate. It does not decide ByteVec chunk arithmetic (values)."
     " Also decided: the concrete fast prefix is exactly the first concrete chunk's bytes (never its backing buffer); raw slices of it are guarded to end inside it, through local aliases too; and the jump arms' advance(pc=...) operands (shared with C01 R01.3)."
     ' Round 5: jump-target candidates are kept unless the solver says unsat (C02 R02.1 at SEVM.run / jumpi).'
+    ' Round 7: a raw Python slice of the concrete code prefix in any method of Contract must end inside the prefix (a PUSH cut off by the end of the code reads zeros) (R19.8).'
 )
 ASSUMPTIONS = [
     "no monkey-patching of Contract / Instruction at run time (checked by meta-rule in C20 R20.4)",
